@@ -6,7 +6,7 @@ import ast
 from ..model import (AnalysisError, U, Defs, FuncNode, call_name, walk_fn, kwarg, enclosing,
                      enclosing_stmt, parents, short, fn_of, always_exits as common_always_exits)
 from ..symex import Symex, Obj, ClassRef, Ext, Func, Raised, _freeze
-from ..terms import T, sym, show, subterms, calls, strip, expand_products, args_of, t_cmp, t_not
+from ..terms import T, sym, show, subterms, calls, strip, expand_products, args_of, t_cmp, t_not, canon
 from . import common
 from . import c08
 from . import dx
@@ -24,8 +24,12 @@ EXPLANATION = (
     "tuple()/join/unpacking/pop()/next(iter()) is followed through names, containers, derived sequences and nested loops to "
     "its consumers: membership, any/all/len/sum/min/max/sorted/set/Counter, Add/Mul, set.add/update, keyed stores, commutative "
     "accumulation, diagnostics and pop() of a set established to have one element end the taint; return/yield, indexing, "
-    "arguments of other functions, per-element effects, order-sensitive comparison are sinks and reported unless the site is a "
-    "frozen, reasoned exception keyed by function and origin vocabulary of the set. R19b: every derivation function "
+    "arguments of other functions, per-element effects, order-sensitive comparison are sinks; an in-place list.sort() ends "
+    "the taint of the list for the reads it dominates, a dict built from the elements is only tainted for reads of its order "
+    "(not for look-ups by key). A read that reaches a sink is discharged only by order-permuting differential evaluation: "
+    "evaluate_deltas, transform_to_spatial_orbitals, TensorNames.rename_tensors and _group_objects are evaluated (helpers looked "
+    "into) on model inputs once per iteration order of every set; the read must be reached with permuted elements and every "
+    "scenario must return the same result - a differing result is itself reported with the two results. R19b: every derivation function "
     "(ground state, intermediate states, secular matrix, properties, Operators.operator) is evaluated for small orders with a "
     "reference model of the index registry (generic requests hand out fresh objects, named requests one object per name) and "
     "with every call of an uncached wavefunction method (psi, overlap, norm_factor - must carry no caching decorator) as a "
@@ -57,7 +61,8 @@ EXPLANATION = (
     "derivation methods return immutable sympy objects on every evaluated path.")
 ASSUMPTIONS = [
     "equality of text across histories needs executions and is not decided",
-    "set iteration over small ints is treated as seed independent (CPython int hashing); frozen set-order exceptions are human judgements",
+    "ordered reads of sets that reach a sink are discharged by differential evaluation on a few model inputs per function (two "
+    "iteration orders: sorted and reversed), not for all inputs",
     "derivation skeletons are evaluated for bounded orders/spaces only (quick: orders <= 3, norm_factor/s_root <= 6; thorough adds order 4, "
     "s_root 7, doubles blocks); wicks, simplify, operators and tensors are uninterpreted, indices follow the reference registry model",
     "order taint does not follow values through calls of other repository functions (an argument is a sink) nor through "
@@ -281,28 +286,15 @@ def r19a_keys(ctx):
 # followed through names, containers and derived sequences to its consumers.  Order-free consumers (membership, any/all/
 # len/sum/min/max/sorted/set/Counter, commutative Add/Mul, set.add, keyed stores, commutative accumulation, diagnostics)
 # end the taint; a return/yield, an argument of another function, indexing, an effect performed per element ... is a
-# sink.  Sinks are violations unless the site is a frozen, reasoned exception keyed by function and origin of the set.
+# sink.  A read that reaches a sink is a violation unless the order-permuting differential evaluation below discharges it.
 
-ORDER_FREE_CALLS = {"sorted", "set", "frozenset", "any", "all", "sum", "len", "min", "max", "Mul", "Add", "Counter", "bool"}
+ORDER_FREE_CALLS = {"sorted", "set", "frozenset", "any", "all", "sum", "len", "min", "max", "Mul", "Add", "Counter", "bool", "prod", "fsum"}
 PASS_THROUGH_CALLS = {"list", "tuple", "enumerate", "zip", "reversed", "iter", "map", "filter", "chain", "from_iterable",
                       "product", "permutations", "combinations", "combinations_with_replacement", "islice", "deque"}
 SET_METHODS = {"atoms", "intersection", "union", "difference", "symmetric_difference", "free_symbols"}
 ORDER_FREE_EFFECTS = {"add", "update", "discard", "setdefault", "debug", "info", "warning", "error", "critical", "warn"}
 SEQ_GROW = {"append", "extend", "insert", "appendleft", "extendleft"}
 COMMUTATIVE_AUG = (ast.Add, ast.Mult, ast.BitOr, ast.BitAnd, ast.BitXor, ast.Sub)
-# (function, origin of the set with local names resolved) -> reason
-SET_ORDER_FROZEN = {
-    ("func:evaluate_deltas", "dict filled per element of atoms() over .args .atoms Index expr"):
-        "occurrence counter; the derived list of target indices is only used for membership tests (also in the recursion)",
-    ("spatial_orbitals:transform_to_spatial_orbitals", "set() over .idx .terms expr set"):
-        "old/new index lists are built from one iteration (same-origin zip) and applied through order_substitutions",
-    ("tensor_names:TensorNames.rename_tensors", "atoms() over .atoms .sympy Symbol expr"):
-        "renames of distinct default names to distinct configured names commute",
-    ("generate_code.optimize_contractions:_group_objects",
-     "set display over  | set display over ._split_contracted_and_target Contraction obj_indices target_indices"):
-        "set of small ints (object positions): CPython iterates them independently of the hash seed; the derived index "
-        "tuples are only split into contracted/target sets",
-}
 
 
 class _Scope:
@@ -638,6 +630,8 @@ class SetOrder:
             if p.value is v:
                 if isinstance(p.ctx, (ast.Store, ast.Del)):
                     return []
+                if not nested and self._is_dict(v):
+                    return []       # look-up by key: the insertion order of a dict is not observed
                 return self.value_sinks(p, False) if nested else [(p, "indexed")]
             return self.value_sinks(p, nested) if isinstance(p.ctx, ast.Load) else []
         if isinstance(p, ast.comprehension):
@@ -683,6 +677,16 @@ class SetOrder:
             return []
         return [(p, f"used in {type(p).__name__}")]
 
+    def _is_dict(self, e, depth=3):
+        if isinstance(e, (ast.Dict, ast.DictComp)):
+            return True
+        if isinstance(e, ast.Call) and call_name(e) in ("dict", "defaultdict", "OrderedDict", "Counter", "fromkeys"):
+            return True
+        if isinstance(e, ast.Name) and depth > 0:
+            vals = self.sc.values(e.id)
+            return bool(vals) and all(self._is_dict(v, depth - 1) for v in vals)
+        return False
+
     def container_sinks(self, recv, at, nested=False):
         """an element was put into the container ``recv`` in tainted order (``nested``: the element itself is an ordered
         value): follow the container"""
@@ -708,8 +712,37 @@ class SetOrder:
         for use in self.sc.loads.get(name, []):
             if id(use) in inside:
                 continue
+            if not nested and self._sorted_before(name, use):
+                continue        # the list was put into a canonical order in place before this read
             out.extend(self.value_sinks(use, nested))
         return out
+
+    @staticmethod
+    def _sorted_before(name, use):
+        """An in-place ``name.sort(..)`` is executed on every path to ``use`` after the last (re)binding / growth of the
+        list: earlier statements of the enclosing statement lists, nearest first."""
+        child = enclosing_stmt(use)
+        if isinstance(child, ast.Expr) and isinstance(child.value, ast.Call) and isinstance(child.value.func, ast.Attribute) \
+                and child.value.func.value is use and child.value.func.attr == "sort":
+            return True         # the sort itself
+        while child is not None and not isinstance(child, FuncNode):
+            par = getattr(child, "_parent", None)
+            for field in ("body", "orelse", "finalbody"):
+                lst = getattr(par, field, None)
+                if isinstance(lst, list) and any(child is s for s in lst):
+                    k = next(i for i, s in enumerate(lst) if s is child)
+                    for s in reversed(lst[:k]):
+                        if isinstance(s, ast.Expr) and isinstance(s.value, ast.Call) and isinstance(s.value.func, ast.Attribute) \
+                                and s.value.func.attr == "sort" and isinstance(s.value.func.value, ast.Name) and s.value.func.value.id == name:
+                            return True
+                        for x in ast.walk(s):
+                            if isinstance(x, ast.Name) and x.id == name and (isinstance(x.ctx, ast.Store) or (
+                                    isinstance(getattr(x, "_parent", None), ast.Attribute) and x._parent.attr in SEQ_GROW | {"reverse"})):
+                                return False
+            if isinstance(par, (ast.For, ast.While)):
+                return False    # a read inside a loop may also see the state of an earlier iteration
+            child = par
+        return False
 
     def comp_name_sinks(self, name, comp):
         out = []
@@ -844,9 +877,258 @@ def _origin(so, src, sc, depth=3):
     return f"{kind} over {' '.join(sorted(vocab))}"
 
 
+# ---------------------------------------------------------------------- order-permuting differential evaluation
+# A function whose ordered read of a set reaches a sink is evaluated (sa.symex, helpers looked into) on model inputs once
+# per iteration order of every set; the read is discharged when the permutation reached it (the sequences iterated there
+# differ between the runs) and the observable result of every scenario is the same.  This replaces the frozen table: the
+# verdict follows the code when it is renamed or moved into a helper, because helpers are evaluated through.
+
+def _okey(x):
+    if isinstance(x, Obj):
+        return "O:" + str(x.name)
+    if isinstance(x, (tuple, list)):
+        return "(" + ",".join(_okey(y) for y in x) + ")"
+    if isinstance(x, (set, frozenset)):
+        return "{" + ",".join(sorted(_okey(y) for y in x)) + "}"
+    if isinstance(x, dict):
+        return "{" + ",".join(sorted(f"{_okey(k)}:{_okey(v)}" for k, v in x.items())) + "}"
+    return repr(x)
+
+
+class OrderSymex(Symex):
+    """Symex with a chosen iteration order for sets; logs what every iteration site iterated."""
+
+    def __init__(self, *a, order=0, log=None, **kw):
+        super().__init__(*a, **kw)
+        self.order, self.log = order, ({} if log is None else log)
+
+    def _ordered(self, s):
+        seq = sorted(s, key=_okey)
+        if self.order:
+            seq.reverse()
+        return seq
+
+    def iterate(self, it, node):
+        r = self._ordered(it) if isinstance(it, (set, frozenset)) else super().iterate(it, node)
+        if node is not None:
+            self.log.setdefault(id(node), []).append(tuple(_okey(x) for x in r))
+        return r
+
+    def ext_call(self, name, args, kw, node):
+        if name.split(".")[-1] in PASS_THROUGH_CALLS | {"sorted", "next", "sum", "min", "max"}:
+            args = [self.iterate(a, node) if isinstance(a, (set, frozenset)) else a for a in args]
+        return super().ext_call(name, args, kw, node)
+
+    def container_method(self, o, attr, a, kw, node):
+        if isinstance(o, set) and attr == "pop" and not a and o:
+            x = self.iterate(o, node)[0]
+            o.remove(x)
+            return x
+        if isinstance(o, str) and attr == "join" and a and isinstance(a[0], (set, frozenset)):
+            a = [self.iterate(a[0], node)] + list(a[1:])
+        return super().container_method(o, attr, a, kw, node)
+
+
+def _idx(name, spin=""):
+    o = Obj("indices:Index", name + (f"_{spin}" if spin else ""))
+    sp = "occ" if name[0] in "ijklmno" else "virt" if name[0] in "abcdefgh" else "general"
+    o.attrs.update(name=name, spin=spin, space=sp, space_and_spin=(sp, spin))
+    return o
+
+
+def _diff_group_objects(ctx, order, log):
+    fn = ctx.model.fn("generate_code.optimize_contractions:_group_objects")
+    sx = OrderSymex(ctx.model, inline=lambda q: True, what="_group_objects", order=order, log=log, max_paths=64)
+    res = []
+    for objs, target, size in (((("i", "a"), ("i", "b"), ("a", "c"), ("b", "c")), (), None),
+                               ((("i", "j", "a", "b"), ("i", "k"), ("j", "k", "c"), ("a", "c"), ("b", "d")), ("d",), None),
+                               ((("i", "j"), ("j", "k"), ("k", "l"), ("l", "i"), ("m", "n")), ("m", "n"), 3),
+                               ((("i", "a"), ("i", "a"), ("i", "b"), ("b", "j"), ("j", "a")), (), 4)):
+        outs = sx.run(fn, lambda: dict(obj_indices=objs, target_indices=target, max_group_size=size))
+        res.append([(o.kind, _okey(o.value) if o.kind == "return" else o.exc) for o in outs])
+    return res
+
+
+def _diff_rename_tensors(ctx, order, log):
+    fn = ctx.model.fn("tensor_names:TensorNames.rename_tensors")
+    defaults = _defaults(ctx)
+    t, p = defaults["gs_amplitude"], defaults["gs_density"]
+    present = sorted(set(defaults.values())) + [t + "1", t + "2", t + "2cc", t + "3", p + "2", p + "3", "Zero"]
+    res = []
+    for conf in ({"gs_amplitude": "T", "gs_density": "R"}, {"gs_amplitude": p, "gs_density": t}, {"eri": "W", "gs_amplitude": "tt"}):
+        cfg = dict(defaults)
+        cfg.update(conf)
+        state = {"names": list(present)}
+
+        def fields_hook(sx_, a, kw):
+            out = []
+            for nm, d in defaults.items():
+                f = Obj(None, f"field:{nm}")
+                f.attrs.update(name=nm, default=d)
+                out.append(f)
+            return out
+
+        def args():
+            state["names"] = list(present)
+            expr = Obj("expr_container:Expr", "expr")
+            expr.attrs["_classes"] = {"Expr", "Container"}
+
+            def rename_tensor(sx_, a, kw):
+                a = [x for x in a if not isinstance(x, Obj)]
+                old = a[0] if a else kw.get("current")
+                new = a[1] if len(a) > 1 else kw.get("new")
+                state["names"] = [new if n == old else n for n in state["names"]]
+                return expr
+
+            def atoms(sx_, a, kw):
+                out = set()
+                for n in set(state["names"]):
+                    s = Obj(None, f"Symbol({n})")
+                    s.attrs["name"] = n
+                    out.add(s)
+                return out
+            sympy = Obj(None, "expr.sympy")
+            sympy.attrs["atoms"] = atoms
+            expr.attrs.update(sympy=sympy, rename_tensor=rename_tensor)
+            me = Obj("tensor_names:TensorNames", "self")
+            me.attrs.update(cfg)
+            return dict(self=me, expr=expr)
+        sx = OrderSymex(ctx.model, inline=lambda q: q.startswith("tensor_names:"), order=order, log=log, what="rename_tensors", max_paths=64,
+                        hooks={"fields": fields_hook, "defaults": lambda s_, a_, k_: dict(defaults),
+                               "TensorNames.defaults": lambda s_, a_, k_: dict(defaults)})
+        outs = sx.run(fn, args)
+        res.append(([o.kind for o in outs], list(state["names"])))
+    return res
+
+
+def _diff_evaluate_deltas(ctx, order, log):
+    fn = ctx.model.fn("func:evaluate_deltas")
+    res = []
+
+    def factor(kind, idx, pk=None):
+        o = Obj(None, f"{kind}[{','.join(i.name for i in idx)}]")
+        o.attrs["_classes"] = {"KroneckerDelta"} if kind == "delta" else {"AntiSymmetricTensor", "SymbolicTensor"}
+        o.attrs["atoms"] = lambda sx_, a, kw, idx=idx: set(idx)
+        o.__dict__["kind"], o.__dict__["idx"] = kind, list(idx)
+        if kind == "delta":
+            o.attrs["preferred_and_killable"] = pk
+            o.attrs["indices_contain_equal_information"] = True
+        return o
+
+    def mul(factors):
+        m = Obj(None, "Mul(" + " ".join(f.name for f in factors) + ")")
+        m.attrs["_classes"] = {"Mul", "Expr", "Basic"}
+        m.attrs["args"] = list(factors)
+
+        def subs(sx_, a, kw):
+            a = [x for x in a if x is not m]
+            old, new = a[0], a[1]
+            out = []
+            for f in factors:
+                idx = [new if i is old else i for i in f.idx]
+                if f.kind == "delta":
+                    if idx[0] is idx[1]:
+                        continue        # delta_pp = 1
+                    out.append(factor("delta", idx, (idx[0], idx[1])))
+                else:
+                    out.append(factor(f.kind, idx))
+            return mul(out)
+        m.attrs["subs"] = subs
+        return m
+
+    def scen(k):
+        i, j, k_, l, a, b, c = (_idx(n) for n in "ijklabc")
+        if k == 0:      # f_ij delta_jk t_ka : k is removed
+            return mul([factor("f", [i, j]), factor("delta", [j, k_], (j, k_)), factor("t", [k_, a])]), None
+        if k == 1:      # two deltas: recursion with the derived target indices
+            return mul([factor("V", [i, j, a, b]), factor("delta", [j, k_], (j, k_)), factor("delta", [b, c], (b, c)),
+                        factor("t", [k_, c])]), None
+        # a delta between two target indices stays
+        return mul([factor("f", [i, j]), factor("delta", [j, k_], (j, k_)), factor("delta", [a, b], (a, b)), factor("t", [k_, l])]), None
+    for k in range(3):
+        sx = OrderSymex(ctx.model, inline=lambda q: q == "func:evaluate_deltas", order=order, log=log, what="evaluate_deltas", max_paths=256,
+                        hooks={"get_symbols": lambda s_, a_, k_: list(a_[0]) if isinstance(a_[0], (list, tuple)) else NotImplemented})
+        outs = sx.run(fn, lambda: dict(zip(("expr", "target_idx"), scen(k))))
+        res.append(sorted((o.kind, o.value.name if isinstance(o.value, Obj) else _okey(o.value)) for o in outs))
+    return res
+
+
+def _diff_spatial(ctx, order, log):
+    fn = ctx.model.fn("spatial_orbitals:transform_to_spatial_orbitals")
+    res = []
+    cache = {}
+
+    def get_symbols(sx_, a, kw):
+        names = a[0] if a else kw.get("indices")
+        spins = a[1] if len(a) > 1 else kw.get("spins")
+        if isinstance(names, str):
+            names = _split_names(names)
+        if not isinstance(names, (list, tuple)) or not all(isinstance(n, str) for n in names):
+            return NotImplemented
+        return [cache.setdefault((n, (spins[k] if spins else "")), _idx(n, spins[k] if spins else "")) for k, n in enumerate(names)]
+
+    def term(label, idx):
+        t = Obj(None, label)
+        sy = Obj(None, label + ".sympy")
+
+        def subs(sx_, a, kw):
+            pairs = [x for x in a if isinstance(x, (list, tuple))][0]
+            cur = list(idx)
+            for old, new in pairs:      # sequential substitution as sympy does it
+                cur = [new if c is old else c for c in cur]
+            return sym(f"{label}[{','.join(c.name for c in cur)}]")
+        sy.attrs["subs"] = subs
+        t.attrs.update(idx=tuple(idx), sympy=sy)
+        return t
+
+    def scen():
+        cache.clear()
+        ia, ja, ib, jb, aa, ab, bb = (cache.setdefault((n, s), _idx(n, s)) for n, s in
+                                      (("i", "a"), ("j", "a"), ("i", "b"), ("j", "b"), ("a", "a"), ("a", "b"), ("b", "b")))
+        ka = cache.setdefault(("k", "a"), _idx("k", "a"))
+        E = Obj("expr_container:Expr", "integrated")
+        E.attrs.update(terms=[term("T1", [ia, ja, aa]), term("T2", [ib, jb, ab, ab]), term("T3", [ka, jb, bb, ib])],
+                       assumptions={}, provided_target_idx=None)
+        return E
+    sx = OrderSymex(ctx.model, inline=lambda q: q in ("indices:order_substitutions",), order=order, log=log, what="transform_to_spatial_orbitals",
+                    max_paths=256, hooks={"get_symbols": get_symbols, "integrate_spin": lambda s_, a_, k_: scen(),
+                                          "Expr": lambda s_, a_, k_: sym("restricted")})
+    outs = sx.run(fn, lambda: dict(expr=sym("input"), target_idx="", target_spin="", restricted=True, expand_eri=False))
+    res.append(sorted((o.kind, repr(canon(o.value)) if o.kind == "return" else o.exc) for o in outs))
+    return res
+
+
+ORDER_SCENARIOS = (("generate_code.optimize_contractions:_group_objects", _diff_group_objects),
+                   ("tensor_names:TensorNames.rename_tensors", _diff_rename_tensors),
+                   ("func:evaluate_deltas", _diff_evaluate_deltas),
+                   ("spatial_orbitals:transform_to_spatial_orbitals", _diff_spatial))
+
+
+def order_differential(ctx):
+    """(ids of iteration sites reached by the permutation with invariant results -> entry function,
+        [(entry, result order 0, result order 1)] of scenarios whose result depends on the order)"""
+    reached, variant = {}, []
+    for entry, run in ORDER_SCENARIOS:
+        logs = [{}, {}]
+        r0, r1 = run(ctx, 0, logs[0]), run(ctx, 1, logs[1])
+        if r0 != r1:
+            variant.append((entry, r0, r1))
+            continue
+        for nid in set(logs[0]) | set(logs[1]):
+            if logs[0].get(nid) != logs[1].get(nid):
+                reached[nid] = entry
+    return reached, variant
+
+
 def r19a_sets(ctx):
     rule = "R19a"
     so = SetOrder(ctx)
+    reached, variant = order_differential(ctx)
+    for entry, r0, r1 in variant:
+        d = next(((x, y) for x, y in zip(r0, r1) if x != y), (r0, r1))
+        ctx.bad(rule, ctx.model.fn(entry), f"{entry.split(':')[1]} evaluated on model inputs gives {str(d[0])[:200]} with the sets iterated in "
+                f"one order and {str(d[1])[:200]} in the reverse order: the result depends on the hash seed", fn=entry,
+                key=f"order differential {entry}")
     n_sites = 0
     for ref, fn in ctx.model.all_functions():
         if getattr(fn, "_fn", None) is not None:
@@ -856,18 +1138,21 @@ def r19a_sets(ctx):
             oref = f"{ref.split(':')[0]}:{sc.fn._qual}"
             origin = _origin(so, src, sc)
             sinks = so.sinks_of_read(src, node, sc)
-            frozen = SET_ORDER_FROZEN.get((oref, origin))
+            run_node = node.iter if isinstance(node, ast.comprehension) else node
+            entry = reached.get(id(run_node))
             key = f"{oref} {origin}"
             if not sinks:
                 ctx.ok(rule, src, f"order of the set `{short(src, 40)}` is not observable: all consumers are order-free", fn=oref, key=key)
-            elif frozen:
-                ctx.ok(rule, src, f"set `{short(src, 40)}` read in order: triaged - {frozen}", fn=oref, key=key)
+            elif entry:
+                ctx.ok(rule, src, f"set `{short(src, 40)}` read in order: {entry.split(':')[1]} evaluated with both iteration orders of its "
+                       "sets reaches this read with permuted elements and returns the same result", fn=oref, key=key)
             else:
                 s, why = sinks[0]
                 ctx.bad(rule, src, f"the set `{short(src, 50)}` (origin `{origin}`) is read in iteration order and that order reaches "
                         f"`{short(s, 70)}` ({why}; {len(sinks)} order-sensitive consumer(s)): the result depends on the hash seed",
                         fn=oref, key=f"set order {origin[:60]}")
     ctx.floor(rule, "ordered reads of sets examined", n_sites, 15)
+    ctx.floor(rule, "iteration sites reached by the order permutation", len(reached), 4)
 
 
 # ====================================================================== R19g
